@@ -15,8 +15,8 @@ Prof1 = Dict(Kind, Dict(Kind, CardDict))                      # property -> kind
 ProfBox2 = box("ProfBox2", Dict(Kind, Tup(Prof1, Prof1)))     # class -> (direct, inverse)
 ProfBox1 = box("ProfBox1", Dict(Kind, Prof1))
 CountsBox = box("CountsBox", Dict(Kind, Int))
-StratDI = schema("StratDI", [DI], {"_class_profile_dict": ProfBox2, "_class_counts_dict": CountsBox, "_shapes_namespace": Kind})
-StratD = schema("StratD", [DS], {"_class_profile_dict": ProfBox1, "_class_counts_dict": CountsBox, "_shapes_namespace": Kind})
+StratDI = schema("StratDI", [DI], {"_class_profile_dict": ProfBox2, "_class_counts_dict": CountsBox, "_shapes_namespace": Kind}, register=False)
+StratD = schema("StratD", [DS], {"_class_profile_dict": ProfBox1, "_class_counts_dict": CountsBox, "_shapes_namespace": Kind}, register=False)
 
 # number of cardinalities among the first i keys whose frequency reaches the threshold (defined by its recurrence)
 specfun("n_pass", [CardList, CardDict, Real, Real, Int], Int,
@@ -24,7 +24,7 @@ specfun("n_pass", [CardList, CardDict, Real, Real, Int], Int,
                 "forall(CardList, CardDict, Real, Real, Int, lambda ks, d, n, t, i: implies(i >= 0, n_pass(ks, d, n, t, i + 1) == n_pass(ks, d, n, t, i) + ite(to_real(d[ks[i]]) / n >= t, 1, 0)))"])
 
 ASSQ = "shexer.core.shexing.strategy.abstract_shexing_strategy:AbstractShexingStrategy"
-contract(ASSQ + "._compute_frequency", params={"number_of_instances": Real, "n_ocurrences_statement": Int}, returns=Real,
+if ASSQ + "._compute_frequency" not in CONTRACTS: contract(ASSQ + "._compute_frequency", params={"number_of_instances": Real, "n_ocurrences_statement": Int}, returns=Real,
     requires=["number_of_instances > 0"], ensures=["result == to_real(n_ocurrences_statement) / number_of_instances"], raises=[], verify=False, assume_only=True,
     note="verified under C01 (contracts/shexing.py)")
 
